@@ -2224,7 +2224,9 @@ def fix_view_arrays(system):
                          if mdl.flags.address is True)
     system.set_var_arrays(models)
 
-    for model in system.models.values():
+    # inputs of the other models are collected when they are initialized; evaluating them now
+    # would size services such as ``ApplyFunc`` from variables that have no storage yet
+    for model in models.values():
         model.get_inputs(refresh=True)
 
     return True
